@@ -162,7 +162,8 @@ def check(tier):
               "layout_character_in_front", "layout_character_after_a_token", "tokens_are_not_extended_by_layout",
               "leading_layout_does_not_change_the_result", "comments_begin_with_a_slash", "a_slash_does_not_extend_a_token",
               "block_comment_in_front", "line_comment_in_front", "comment_after_a_token", "the_scanner_stops_after_a_block_comment",
-              "leading_block_comment_does_not_change_the_result", "comments_exist", "positions_are_those_of_the_text_in_front",
+              "leading_block_comment_does_not_change_the_result", "comments_exist", "any_layout_changes_leave_the_tokens",
+              "any_layout_changes_leave_the_result", "several_changes_example", "positions_are_those_of_the_text_in_front",
               "inserted_text_moves_positions_by_itself"]:
         rep.obligation("Props/C13.v: " + t, ok)
     rep.cov["print_assumptions"] = "Closed under the global context x%d" % log.count("Closed under the global context") if ok else "n/a"
